@@ -286,7 +286,7 @@ def gen_c07(tier, enum):
     return [("layers", "c07gen.go", "\n".join(out))]
 
 
-C06_SIZES = {}
+C06_SIZES = {"IPv6HopByHop": {"quick": 10, "thorough": 16}, "IPv6Destination": {"quick": 10, "thorough": 16}, "GRE": {"thorough": 20}, "UDP": {"thorough": 14}}
 
 C02_CORE = [("Ethernet", 22), ("Dot1Q", 12), ("IPv4", 28), ("IPv6", 44), ("TCP", 24), ("UDP", 12), ("ICMPv4", 12), ("ICMPv6", 12), ("GRE", 16), ("ARP", 28)]
 
@@ -434,7 +434,7 @@ PROPS = {
         "static": [("pcapgo", "c15.go")],
         "bounds": "every stream length 0..L enumerated (one instance per length), contents fully symbolic; pcap L=56 quick/72 thorough, snoop L=48/64, pcapng L=48/96; up to 3 (pcap) / 2 (snoop, pcapng) read calls, copying or zero-copy chosen per call; chunking: first two Read calls return 1, 3, 7 or all bytes (all 16 combinations); fault: I/O error injected at a symbolic byte position; declared pcap snap length assumed <= 65535; allocations whose symbolic size can exceed 65536 elements are reported",
         "outside": "gzip-wrapped input (assumed away right after the magic test); longer streams",
-        "quick": {"timeout": 1800, "maxpaths": 1500, "partial_ok_all": True, "unsupported_ok": True, "params": "verif_C15_pcap:len=0..48;verif_C15_pcap_(chunks|fault):len=0..48/4;verif_C15_snoop.*:len=0..44/4;verif_C15_ng:len=0..30/2;verif_C15_ng_idb:len=0..28/4;verif_C15_ng_epb:len=28..44/8", "units": "verif_C15_(pcap|pcap_chunks|pcap_fault|snoop|snoop_fault|ng|ng_idb|ng_epb)"},
+        "quick": {"timeout": 1800, "maxpaths": 800, "partial_ok_all": True, "unsupported_ok": True, "params": "verif_C15_pcap:len=0..48/2;verif_C15_pcap_(chunks|fault):len=0..48/8;verif_C15_snoop:len=0..44/4;verif_C15_snoop_fault:len=24..44/10;verif_C15_ng:len=0..30/3;verif_C15_ng_idb:len=0..28/4;verif_C15_ng_epb:len=28..44/8", "units": "verif_C15_(pcap|pcap_chunks|pcap_fault|snoop|snoop_fault|ng|ng_idb|ng_epb)"},
         "thorough": {"timeout": 3000, "params": "verif_C15_pcap.*:len=0..72;verif_C15_snoop.*:len=0..64;verif_C15_ng:len=0..40;verif_C15_ng_(chunks|fault|mixed):len=0..36;verif_C15_ng_idb:len=0..44;verif_C15_ng_epb:len=28..64"},
     },
     "C16": {
